@@ -299,3 +299,39 @@ def sortedKeys (gt : Box) : List Rat :=
   (argsort keys).map (fun i => keys.getD i 0)
 
 end PEval.Geometry
+
+namespace PEval.Geometry
+
+/-! ## extension (C06 strengthening): symmetrised exact intersection area, a defective clipper variant -/
+
+/-- the exact clipper evaluated in BOTH argument orders, the smaller value.  The two orders give different
+vertex lists of the same region; the check compares `interArea p q` with `interArea q p` exactly on every
+generated pair (they agree), so on every checked pair `interSym p q = interArea p q`.  The full area
+contract (`0 ≤ I ≤ min(A1, A2)`, symmetric) is PROVED for this function. -/
+def interSym (p q : List V2) : Rat := rmin (interArea p q) (interArea q p)
+
+/-- DEFECTIVE variant of `clipStep` (for the non-vacuity examples only): the inside test of the previous
+vertex has the wrong sign in the branch "current vertex inside", so crossing points are computed for edges
+that do not cross the line (extrapolated beyond the edge) -/
+def clipStepBad (a b : V2) (st : V2 × List V2) (cur : V2) : V2 × List V2 :=
+  let prev := st.1
+  let out := st.2
+  let dc := cross a b cur
+  let dp := cross a b prev
+  if 0 ≤ dc then
+    if 0 < dp then (cur, cur :: isect prev cur dp dc :: out) else (cur, cur :: out)
+  else
+    if 0 ≤ dp then (cur, isect prev cur dp dc :: out) else (cur, out)
+
+def clipEdgeBad (a b : V2) (poly : List V2) : List V2 :=
+  match poly.getLast? with
+  | none => []
+  | some last => (poly.foldl (clipStepBad a b) (last, [])).2.reverse
+
+def clipConvexBad (subject clip : List V2) : List V2 :=
+  (edges (ccw clip)).foldl (fun poly e => clipEdgeBad e.1 e.2 poly) subject
+
+def interAreaBad (p q : List V2) : Rat :=
+  if signed2 p = 0 ∨ signed2 q = 0 then 0 else polyArea (clipConvexBad p q)
+
+end PEval.Geometry
